@@ -102,6 +102,9 @@ func RunOne(t *testing.T, prog *Program, tape *Tape, keepTrace bool) (res *Resul
 	if f, ok := specialRunners[prog.Profile]; ok {
 		return f(t, prog, tape, keepTrace)
 	}
+	if prog.Cfg.MeterAlloc && !metering {
+		return runMetered(t, prog, tape, keepTrace)
+	}
 	res = &Result{Seed: prog.Seed, Prog: prog}
 	before := libGoroutines()
 	var s *Sim
@@ -360,4 +363,51 @@ func (r *Result) histText() []string {
 		out = append(out, ev.String())
 	}
 	return out
+}
+
+
+var metering bool
+
+// runMetered executes the run and measures how many bytes it allocated (the
+// collector is off during a run and everything else in the process is idle, so
+// the difference of runtime.MemStats.TotalAlloc is attributable to the run).
+// The body handed to the decoder starts with a size preface; a preface above
+// the per-message limit must be refused before anything of that size is
+// allocated, and no preface may cost more than the limit.
+func runMetered(t *testing.T, prog *Program, tape *Tape, keepTrace bool) *Result {
+	metering = true
+	defer func() { metering = false }()
+	var body []byte
+	side := "client"
+	note := ""
+	if prog.Canned != nil {
+		body, note = []byte(prog.Canned.Raw), prog.Canned.RawNote
+	} else if len(prog.RPCs) > 0 && len(prog.RPCs[0].Client) > 0 && prog.RPCs[0].Client[0].Raw != nil {
+		body, note, side = []byte(prog.RPCs[0].Client[0].Raw.Body), prog.RPCs[0].Client[0].Raw.Note, "server"
+	}
+	var m0, m1 runtime.MemStats
+	runtime.GC()
+	runtime.ReadMemStats(&m0)
+	res := RunOne(t, prog, tape, keepTrace)
+	runtime.ReadMemStats(&m1)
+	delta := m1.TotalAlloc - m0.TotalAlloc
+	res.Stats.Probes["c07-alloc-metered"]++
+	res.Stats.Probes["C07-relevant"]++
+	announced := int64(0)
+	if len(body) >= 4 {
+		announced = int64(int32(uint32(body[0])<<24 | uint32(body[1])<<16 | uint32(body[2])<<8 | uint32(body[3])))
+		if announced < 0 {
+			announced = -announced
+		}
+	}
+	const perMessage = 100 * 1024 * 1024
+	limit := uint64(perMessage + 16*1024*1024)
+	if announced > perMessage {
+		limit = 16 * 1024 * 1024 // over the per-message limit: must be refused before allocating
+	}
+	if delta > limit {
+		res.Viols = append(res.Viols, Violation{Prop: "C07", Sig: "C07|http|alloc-on-unverified-preface|" + side + "|" + strings.ReplaceAll(note, " ", "-"), RPC: 0,
+			Text: fmt.Sprintf("%s-side decoder, adversarial body (%s, %d bytes present, preface announces %d): decoding allocated %d bytes", side, note, len(body), announced, delta)})
+	}
+	return res
 }
